@@ -108,7 +108,7 @@ def changes(sel=None):
             d = os.path.join(pd, name)
             if os.path.isfile(os.path.join(d, "patch.diff")):
                 key = f"{pid}/{name}"
-                if sel and not (key == sel or pid == sel):
+                if sel and not any(key == x or pid == x for x in sel.split(",")):
                     continue
                 out.append((pid, name, d))
     return out
